@@ -267,10 +267,16 @@ func init() {
 		return p
 	}
 
-	planTable["C01"] = lsmPlan("Normal-mode histories on the real DB: writes (inline and value-log values), deletes, flushes, every picker compaction, table ageing, value-log GC, with up to two read-only snapshot transactions opened at arbitrary points and kept open; after EVERY transition every open snapshot re-reads every key by Get+ValueCopy, a prefetching forward iterator and a non-prefetching reverse iterator and must still see exactly the newest write at or below its read timestamp (a fresh transaction must see the latest state). Concurrent part: readers, committers, a flusher and a compaction interleaved under the controlled scheduler (see C03 scenarios).",
+	planTable["C01"] = lsmPlan("Normal-mode histories on the real DB: writes (inline and value-log values), deletes, flushes, every picker compaction, table ageing, value-log GC, with up to two read-only snapshot transactions opened at arbitrary points and kept open; after EVERY transition every open snapshot re-reads every key by Get+ValueCopy, a prefetching forward iterator and a non-prefetching reverse iterator and must still see exactly the newest write at or below its read timestamp (a fresh transaction must see the latest state). Option combinations: the same search under snappy + encryption + 3 levels and in-memory + zstd + larger tables (thorough: more). Concurrent part: readers, committers, a flusher and a compaction interleaved under the controlled scheduler (see C03 scenarios).",
 		stateRule,
-		[]Stage{sched("c01flush", 2, 16, 30, prm("variant", "flush")), sched("c01flush", 2, 16, 30, prm("variant", "compact")), bfs("lsm", 5, 60, prm("oracle", "c12", "mode", "normal", "keys", 2, "ops", "Sa Sb Da F C0 C1 O X")), bfs("lsm", 4, 40, prm("oracle", "c12", "mode", "normal", "keys", 2, "big", true, "gc", true, "vlog_max_entries", 1, "ops", "Ba Bb Sa Da F C0 G O X"), seq("Ba Bb F"), seq("Ba Ba F C0"))},
-		[]Stage{sched("c01flush", 3, 16, 300, prm("variant", "flush")), sched("c01flush", 3, 16, 300, prm("variant", "compact")), sched("c01flush", 2, 16, 300, prm("variant", "compact", "inmemory", false)), bfs("lsm", 7, 900, prm("oracle", "c12", "mode", "normal", "keys", 2, "ops", "Sa Sb Da Db F C0 C1 O X A")), bfs("lsm", 6, 600, prm("oracle", "c12", "mode", "normal", "keys", 2, "big", true, "gc", true, "vlog_max_entries", 1, "ops", "Ba Bb Sa Da F C0 G O X"), seq("Ba Bb F"), seq("Ba Ba F C0")), bfs("lsm", 5, 600, prm("oracle", "c12", "mode", "normal", "keys", 2, "inmemory", true, "ops", "Sa Sb Da F C0 C1 O X"))})
+		[]Stage{sched("c01flush", 2, 16, 30, prm("variant", "flush")), sched("c01flush", 2, 16, 30, prm("variant", "compact")), bfs("lsm", 5, 60, prm("oracle", "c12", "mode", "normal", "keys", 2, "ops", "Sa Sb Da F C0 C1 O X")),
+			// option combinations: snappy + encryption + 3 levels, in-memory + zstd, big memtable / table sizes
+			bfs("lsm", 4, 30, prm("oracle", "c12", "mode", "normal", "keys", 2, "big", true, "compression", "snappy", "encrypt", true, "max_levels", 3, "ops", "Sa Bb Da F C0 O X")),
+			bfs("lsm", 4, 30, prm("oracle", "c12", "mode", "normal", "keys", 2, "inmemory", true, "compression", "zstd", "table_size", 4096, "base_level_size", 8192, "ops", "Sa Sb Da F C0 O X")), bfs("lsm", 4, 40, prm("oracle", "c12", "mode", "normal", "keys", 2, "big", true, "gc", true, "vlog_max_entries", 1, "ops", "Ba Bb Sa Da F C0 G O X"), seq("Ba Bb F"), seq("Ba Ba F C0"))},
+		[]Stage{sched("c01flush", 3, 16, 300, prm("variant", "flush")), sched("c01flush", 3, 16, 300, prm("variant", "compact")), sched("c01flush", 2, 16, 300, prm("variant", "compact", "inmemory", false)), bfs("lsm", 7, 900, prm("oracle", "c12", "mode", "normal", "keys", 2, "ops", "Sa Sb Da Db F C0 C1 O X A")), bfs("lsm", 6, 600, prm("oracle", "c12", "mode", "normal", "keys", 2, "big", true, "gc", true, "vlog_max_entries", 1, "ops", "Ba Bb Sa Da F C0 G O X"), seq("Ba Bb F"), seq("Ba Ba F C0")), bfs("lsm", 5, 600, prm("oracle", "c12", "mode", "normal", "keys", 2, "inmemory", true, "ops", "Sa Sb Da F C0 C1 O X")),
+			bfs("lsm", 5, 600, prm("oracle", "c12", "mode", "normal", "keys", 2, "big", true, "compression", "snappy", "encrypt", true, "max_levels", 3, "ops", "Sa Bb Da F C0 C1 O X")),
+			bfs("lsm", 5, 600, prm("oracle", "c12", "mode", "normal", "keys", 2, "inmemory", true, "compression", "zstd", "table_size", 4096, "base_level_size", 8192, "ops", "Sa Sb Da F C0 C1 O X")),
+			bfs("lsm", 5, 600, prm("oracle", "c12", "mode", "normal", "keys", 2, "big", true, "compression", "zstd", "encrypt", true, "mem_table_size", 16<<10, "value_threshold", 32, "nvk", 100, "ops", "Sa Bb Da F C0 C1 O X"))})
 
 	planTable["C15"] = lsmPlan("Normal- and managed-mode histories with value-log values (one entry per value-log file, so files rotate constantly), deletes, flushes, compactions and RunValueLogGC of the oldest sealed file as explicit transitions (discard statistics forced: any sealed file may be picked), with snapshot transactions, a Get item and an iterator item held in open transactions across the GC: after every transition every read (fresh, snapshot, held items) must be unchanged and no deleted key may reappear. Concurrent part: GC rewrite phases (scan, write-back, file deletion) interleaved with a deleter/compactor, an iterator opened mid-GC, and a snapshot reader whose key is overwritten, flushed and compacted to the last level during the rewrite, under the controlled scheduler.",
 		stateRule,
